@@ -75,38 +75,33 @@ def rule_grp(A: Analysis, rep):
     dv = kws.get("deps")
     ok = False
     det = "deps=%s" % (norm(dv) if dv is not None else "?")
-    if isinstance(dv, ast.Name):
-        defs = [d for d in A.defs(fi, dv.id) if isinstance(d, ast.Assign)]
-        vals = {}
-        for d in defs:
-            gs = A.path_guards(g, be, g.node_of(d), fi)
-            # conditions of the validation raises that precede are not part of the decision
-            gs = {frozenset(a for a in c if "isinstance(" not in a[0] and not a[0].startswith("in(")) for c in gs}
-            vals[norm(d.value)] = sorted(sorted(c) for c in gs)
-        td = None
+    if dv is not None:
+        keep = lambda a: not ("isinstance(" in a or a.startswith("in("))
+        rv = A.rvalues(fi, dv, _stmt_of(call), g, start=be, keep=keep, depth=2)
+        # identify the 'previous experiment' variable: the one whose None-test guards the chained form
         prev = None
-        for v_, gs in vals.items():
-            if v_.startswith("[*") or " + [" in v_:
-                for c in gs:
-                    for a, p in c:
-                        if a.startswith("none(") and not p:
-                            prev = a[5:-1]
-        for v_ in vals:
-            if not (v_.startswith("[*") or " + [" in v_):
-                td = v_
-        if td and prev:
-            tdv = A.single_def_value(fi, td)
-            forms = ("[*%s, %s]" % (td, prev), "%s + [%s]" % (td, prev), "[*%s, %s]" % (td, prev))
-            chained = [v_ for v_ in vals if v_ in forms]
-            ok = len(vals) == 2 and len(chained) == 1 and vals[chained[0]] == [sorted([("none(%s)" % prev, False), ("t(%s)" % chain, True)])] and vals[td] == [[]] and \
-                tdv is not None and norm(tdv) == "%s if %s is not None else []" % (deps, deps)
-            # prev and the list of relative identifiers are updated on every iteration with ":" + name
+        for c, v in rv:
+            for a, p in c:
+                if a.startswith("none(") and not p:
+                    prev = a[5:-1]
+        td = sorted({v for c, v in rv if not (v.startswith("[*") or " + [" in v)})
+        if prev and len(td) == 1:
+            tdn = td[0]
+            chained = {"[*%s, %s]" % (tdn, prev), "%s + [%s]" % (tdn, prev)}
+            want_chain = frozenset({("none(%s)" % prev, False), ("t(%s)" % chain, True)})
+            from ..analysis import _simplify
+            plain_g = _simplify([c for c, v in rv if v == tdn])
+            ok = any((want_chain, ch) in set(rv) for ch in chained) and len({v for _c, v in rv}) == 2 and \
+                sorted(map(sorted, plain_g)) == sorted(map(sorted, [frozenset({("t(%s)" % chain, False)}), frozenset({("none(%s)" % prev, True)})]))
+            # the group's own deps: `deps if deps is not None else []`
+            tv = A.rvalues(fi, ast.Name(id=tdn, ctx=ast.Load()), _stmt_of(call), g, keep=lambda a: a == "none(%s)" % deps, depth=1) if tdn.isidentifier() else []
+            ok = ok and set(tv) == {(frozenset({("none(%s)" % deps, False)}), deps), (frozenset({("none(%s)" % deps, True)}), "[]")}
             upd = [n for n in g.nodes if n.kind == "stmt" and isinstance(n.ast, ast.Assign) and norm(n.ast.targets[0]) == prev and id(n.ast) in {id(x) for x in ast.walk(lp)}]
             okp = len(upd) == 1 and A.xtext(upd[0].ast.value, fi) == "':' + %s.name" % e and g.all_paths_pass(cn, hdr, upd, skip_labels=is_exc)
             init_prev = [d for d in A.defs(fi, prev) if isinstance(d, (ast.Assign, ast.AnnAssign)) and id(d) not in {id(x) for x in ast.walk(lp)}]
             okp = okp and len(init_prev) == 1 and norm(init_prev[0].value) == "None"
             ok = ok and okp
-        det = "deps candidates %s" % vals
+        det = "deps takes %s" % [(fmt_conj(c), v) for c, v in rv]
     rep.check(ok, "GRP1", "deps = group deps, plus the previous experiment iff chain_experiments", call,
               "[*task_deps, ':'+previous] exactly when chain_experiments and a previous instance exists; the previous identifier advances every iteration", det)
     # GRP2 combine
